@@ -90,6 +90,11 @@ pub fn chan_to_node(case: &Case, chan: usize) -> Option<usize> {
         return None;
     }
     let n = (chan - 1) ^ (case.cfg.chan_mask as usize);
+    if n == case.nodes.len() {
+        // The one mailbox created after all others: the late mailbox of a sub-model (created in
+        // its parent's `build()`); the pre-created mailbox of that node carries no traffic.
+        return case.nodes.iter().position(|x| x.late_mailbox);
+    }
     (n < case.nodes.len()).then_some(n)
 }
 
